@@ -11,6 +11,9 @@ def enumTable : List (Char × List Char) :=
    (Char.ofNat 13, [Char.ofNat 92, Char.ofNat 114]),
    (Char.ofNat 9, [Char.ofNat 92, Char.ofNat 116])]
 
+/-- the module has an `escape_characters` translate table (false: the table above is empty because there is none) -/
+def enumTablePresent : Bool := true
+
 def typedDictKeyTable : List (Char × List Char) :=
   [(Char.ofNat 0, [Char.ofNat 92, Char.ofNat 120, Char.ofNat 48, Char.ofNat 48]),
    (Char.ofNat 92, [Char.ofNat 92, Char.ofNat 92]),
@@ -20,6 +23,14 @@ def typedDictKeyTable : List (Char × List Char) :=
    (Char.ofNat 10, [Char.ofNat 92, Char.ofNat 110]),
    (Char.ofNat 13, [Char.ofNat 92, Char.ofNat 114]),
    (Char.ofNat 9, [Char.ofNat 92, Char.ofNat 116])]
+
+/-- the module has an `escape_characters` translate table (false: the table above is empty because there is none) -/
+def typedDictKeyTablePresent : Bool := true
+
+/-- `model/typed_dict.py DataModelField.key`: source of the returned expression, and whether it is
+`<wire name>.translate(escape_characters)` with the module's own table (the reviewed shape) -/
+def typedDictKeySource : String := "key.translate(escape_characters)"
+def typedDictKeyUsesTable : Bool := true
 
 /-- (file, literal text before, literal text after) of each f-string embedding the escaped text -/
 def enumSites : List (String × String × String) :=
